@@ -193,7 +193,7 @@ func symUnpinNow()           { zzclock.ZZClockUnpin() }
 func symYield()              { zzclock.ZZSchedPoint(); runtime.Gosched() }
 func symWaitUntil(f func() bool) {
 	zzclock.ZZSchedPoint()
-	for !f() {
+	for !zzclock.ZZSchedQuiet(f) {
 		runtime.Gosched()
 	}
 }
@@ -415,13 +415,33 @@ func ZZSchedDiverged() bool {
 	return zzSchedDiverge
 }
 
+// ZZSchedQuiet evaluates f without scheduling points on the calling goroutine (wait predicates).
+func ZZSchedQuiet(f func() bool) bool {
+	g := zzGoID()
+	zzSchedMu.Lock()
+	zzSchedQuietG[g]++
+	zzSchedMu.Unlock()
+	defer func() {
+		zzSchedMu.Lock()
+		zzSchedQuietG[g]--
+		zzSchedMu.Unlock()
+	}()
+	return f()
+}
+
+var zzSchedQuietG = map[uint64]int{}
+
 func ZZSchedPoint() {
 	zzSchedMu.Lock()
 	defer zzSchedMu.Unlock()
 	if !zzSchedActive {
 		return
 	}
-	me, ok := zzSchedIDs[zzGoID()]
+	g := zzGoID()
+	if zzSchedQuietG[g] > 0 {
+		return
+	}
+	me, ok := zzSchedIDs[g]
 	if !ok {
 		return
 	}
@@ -625,7 +645,7 @@ func harnessFuncs(file string) ([]string, error) {
 }
 
 // runNative executes the cases of one package natively and returns the results by case id.
-func runNative(repo, verif, pkgDir, pkgName string, harnessFiles []string, rewrite func(scratch string, replace map[string]string) error, cases []nativeCase, keepDir string) (map[int]nativeResult, string, error) {
+func runNative(repo, verif, pkgDir, pkgName string, harnessFiles []string, rewrite func(scratch string, replace map[string]string) error, depPkgs []string, cases []nativeCase, keepDir string) (map[int]nativeResult, string, error) {
 	scratch, err := os.MkdirTemp("", "gosym-native-")
 	if err != nil {
 		return nil, "", err
@@ -663,6 +683,23 @@ func runNative(repo, verif, pkgDir, pkgName string, harnessFiles []string, rewri
 		if err := rewrite(scratch, replace); err != nil {
 			return nil, "", err
 		}
+	}
+	if len(depPkgs) > 0 {
+		var sb strings.Builder
+		sb.WriteString("package " + pkgName + "\n\nimport (\n\tzzclock \"github.com/plgd-dev/go-coap/v3/pkg/errors\"\n")
+		for i, d := range depPkgs {
+			fmt.Fprintf(&sb, "\tzzdep%d %q\n", i, d)
+		}
+		sb.WriteString(")\n\nfunc init() {\n")
+		for i := range depPkgs {
+			fmt.Fprintf(&sb, "\tzzdep%d.ZZSchedPointFn = zzclock.ZZSchedPoint\n\tzzdep%d.ZZSchedGoFn = zzclock.ZZSchedGo\n", i, i)
+		}
+		sb.WriteString("}\n")
+		dp, err := write("zz_verif_deps.go", sb.String())
+		if err != nil {
+			return nil, "", err
+		}
+		replace[filepath.Join(repo, pkgDir, "zz_verif_deps.go")] = dp
 	}
 	replace[filepath.Join(repo, pkgDir, "zz_verif_sym.go")] = symPath
 	replace[filepath.Join(repo, pkgDir, "zz_verif_replay_test.go")] = drvPath
